@@ -15,6 +15,10 @@ typedef unsigned char name_t;
 #define VERIF_MOVE(p) (p)
 #define VERIF_REF(p) (p)
 #define NAME_COPY(p) (*(p))
+typedef struct namevec { name_t d[NAMES]; unsigned n; } namevec;
+#define NAMEVEC_BEGIN(v) (&(v)->d[0])
+#define NAMEVEC_END(v) (&(v)->d[(v)->n <= NAMES ? (v)->n : NAMES])
+#define NAMEVEC_INC(itp) (++*(itp), (itp))
 #define PTR_ID(p) (p)
 #define IT_NE(a, b) ((_Bool)((a) != (b)))
 #define IT_EQ(a, b) ((_Bool)((a) == (b)))
